@@ -402,8 +402,9 @@ theorem getHeader_named {σ} (cfg : Cfg) (send : Send σ) (id : Nat) (w : World 
   generalize readFruData cfg send w (some 0) 8 id = r at hx
   cases r.out <;> exact hx
 
-theorem readFruArea_named {σ} (cfg : Cfg) (send : Send σ) (id : Nat) (w : World σ)
-    (offset : Option Nat) (h : Named id w.trace) : Named id (readFruArea cfg send w offset id).w.trace := by
+theorem readFruArea_named {σ} (cfg : Cfg) (send : Send σ) (lenChk : Bool) (id : Nat) (w : World σ)
+    (offset : Option Nat) (h : Named id w.trace) :
+    Named id (readFruArea cfg send lenChk w offset id).w.trace := by
   have hx := readFruData_named cfg send id w offset 5 h
   unfold readFruArea
   dsimp only
@@ -413,17 +414,21 @@ theorem readFruArea_named {σ} (cfg : Cfg) (send : Send σ) (id : Nat) (w : Worl
     simp only
     cases data[1]? with
     | none => exact hx
-    | some b => exact readFruData_named cfg send id _ _ _ hx
+    | some b =>
+      simp only
+      split
+      · exact hx
+      · exact readFruData_named cfg send id _ _ _ hx
   | _ => exact hx
 
-theorem getInfoArea_named {σ} (cfg : Cfg) (send : Send σ) (id : Nat) (w : World σ) (a : Area)
-    (h : Named id w.trace) : Named id (getInfoArea cfg send w a id).w.trace := by
+theorem getInfoArea_named {σ} (cfg : Cfg) (send : Send σ) (lenChk : Bool) (id : Nat) (w : World σ) (a : Area)
+    (h : Named id w.trace) : Named id (getInfoArea cfg send lenChk w a id).w.trace := by
   have hx := getHeader_named cfg send id w h
   unfold getInfoArea
   dsimp only
   generalize getHeader cfg send w id = r at hx
   cases hr : r.out with
-  | ok hd => exact readFruArea_named cfg send id _ _ hx
+  | ok hd => exact readFruArea_named cfg send lenChk id _ _ hx
   | _ => exact hx
 
 theorem mrWalk_named {σ} (cfg : Cfg) (send : Send σ) (id : Nat) :
@@ -478,8 +483,8 @@ theorem optArea_named {σ} (id : Nat) (present : Bool) (w : World σ) (f : World
     cases r.out <;> exact hx
 
 /-- The intended `get_fru_inventory`: every request of every part names the caller's FRU. -/
-theorem getInventory_named {σ} (cfg : Cfg) (send : Send σ) (id : Nat) (w : World σ)
-    (h : Named id w.trace) : Named id (getInventory cfg send false w id).w.trace := by
+theorem getInventory_named {σ} (cfg : Cfg) (send : Send σ) (lenChk : Bool) (id : Nat) (w : World σ)
+    (h : Named id w.trace) : Named id (getInventory cfg send false lenChk w id).w.trace := by
   have hx := getHeader_named cfg send id w h
   unfold getInventory
   dsimp only
@@ -487,21 +492,21 @@ theorem getInventory_named {σ} (cfg : Cfg) (send : Send σ) (id : Nat) (w : Wor
   cases hr : r.out with
   | ok hd =>
     simp only
-    have h1 := optArea_named id hd.chassis.isSome r.w (fun w => getInfoArea cfg send w .chassis id)
-      (fun w hw => getInfoArea_named cfg send id w _ hw) hx
-    generalize optArea hd.chassis.isSome r.w (fun w => getInfoArea cfg send w .chassis id) = c at h1
+    have h1 := optArea_named id hd.chassis.isSome r.w (fun w => getInfoArea cfg send lenChk w .chassis id)
+      (fun w hw => getInfoArea_named cfg send lenChk id w _ hw) hx
+    generalize optArea hd.chassis.isSome r.w (fun w => getInfoArea cfg send lenChk w .chassis id) = c at h1
     cases hc : c.out with
     | ok ch =>
       simp only
-      have h2 := optArea_named id hd.board.isSome c.w (fun w => getInfoArea cfg send w .board id)
-        (fun w hw => getInfoArea_named cfg send id w _ hw) h1
-      generalize optArea hd.board.isSome c.w (fun w => getInfoArea cfg send w .board id) = b at h2
+      have h2 := optArea_named id hd.board.isSome c.w (fun w => getInfoArea cfg send lenChk w .board id)
+        (fun w hw => getInfoArea_named cfg send lenChk id w _ hw) h1
+      generalize optArea hd.board.isSome c.w (fun w => getInfoArea cfg send lenChk w .board id) = b at h2
       cases hb : b.out with
       | ok bo =>
         simp only
-        have h3 := optArea_named id hd.product.isSome b.w (fun w => getInfoArea cfg send w .product id)
-          (fun w hw => getInfoArea_named cfg send id w _ hw) h2
-        generalize optArea hd.product.isSome b.w (fun w => getInfoArea cfg send w .product id) = p at h3
+        have h3 := optArea_named id hd.product.isSome b.w (fun w => getInfoArea cfg send lenChk w .product id)
+          (fun w hw => getInfoArea_named cfg send lenChk id w _ hw) h2
+        generalize optArea hd.product.isSome b.w (fun w => getInfoArea cfg send lenChk w .product id) = p at h3
         cases hp : p.out with
         | ok pr =>
           simp only
